@@ -19,7 +19,8 @@ ASSUMPTIONS = ["recorders are ordinary sink nodes logging (time, value) from use
                "vp/model.py for the remaining nodes", "g++-12 -O1 build of the working tree with harness-side shims"]
 FLOORS = {"deliveries_checked": {"quick": 3000, "thorough": 40000}, "loops": {"quick": 300, "thorough": 4000},
           "consecutive_step_writes": {"quick": 300, "thorough": 4000}, "quiescent_loops": {"quick": 4, "thorough": 60},
-          "collection_deliveries_checked": {"quick": 500, "thorough": 8000}}
+          "collection_deliveries_checked": {"quick": 500, "thorough": 8000},
+          "deliveries_after_captured_error": {"quick": 60, "thorough": 1000}}
 BATCH = 25
 
 
@@ -95,6 +96,34 @@ def gen_fb_case(rng, name):
     return c
 
 
+def gen_fb_try(rng, name):
+    """A feedback loop inside a try_except body; a node ranked after the loop's writer, sink and both recorders throws in some
+    of the cycles in which a value was written (the error is captured, the run continues): the written value must still arrive
+    one step later, also when nothing else wakes the wrapped graph on that step."""
+    c = Case(name, 0, rng.choice([20, 30, 45]))
+    uid = UID()
+    ua = uid()
+    # sparse input: gaps after most ticks, so that only the feedback itself asks for the following step
+    t, sc = rng.choice([0, 1]), []
+    while t < c.end:
+        sc.append((t, rng.randint(-20, 90)))
+        t += rng.choice([1, 3, 4, 5, 7])
+    c.scripts[ua] = sc
+    init = rng.choice([None, 0, 3])
+    kw = {} if init is None else {"init": init}
+    uw, ur, ut = uid(), uid(), uid()
+    body = [S("f", "fb", **kw), S("tot", "add2", "p0", "~f", uid=uid()), S("", "bind", "f", "tot"),
+            S("pw", "pass", "tot", uid=uw), S("pr", "pass", "f", uid=ur), S("j", "add2", "pw", "~pr", uid=uid()),
+            S("th", "thrower", "j", uid=ut), S("", "RET", "th")]
+    c.graphs["sub0"] = body
+    c.graphs["main"] = [S("a", "src", uid=ua, mode=rng.choice([0, 1])), S("r", "try", "a", sid=0), S("o", "tryout", "r", uid=uid()),
+                        S("", "tryerr", "r", uid=uid()), S("", "rec", "o", uid=uid())]
+    n_writes = len([1 for tt, _ in sc if tt < c.end])
+    c.faults = [(ut, "eval", o) for o in sorted(rng.sample(range(1, max(2, n_writes) + 1), min(n_writes, rng.choice([1, 2, 4]))))]
+    c.meta.update(kind="fbtry", fb=[(ur, uw, init)], thrower=ut)
+    return c
+
+
 def gen_collfb(rng, name):
     """Feedback over a collection shape: producer = scripted collection source, reader mirrored."""
     from .gen_coll import gen_cscript
@@ -112,6 +141,7 @@ def generate(rng, tier, seed):
     n = 400 if tier == "quick" else 6000
     cases = [gen_fb_case(rng, f"c08_{seed}_{k}") for k in range(n)]
     cases += [gen_collfb(rng, f"c08_{seed}_coll{k}") for k in range(n // 3)]
+    cases += [gen_fb_try(rng, f"c08_{seed}_try{k}") for k in range(n // 5)]
     return cases
 
 
@@ -205,6 +235,12 @@ def check(case, tr):
             res.violations.append(Violation(f"feedback reader stream {D[:8]} != producer stream shifted by one step {exp[:8]} "
                                             f"(lost {lost[:4]}, unexpected {extra[:4]})"))
         same_cycle = set(t for t, _ in W) & set(t for t, _ in D if (t, _) and False)
+    if case.meta.get("kind") == "fbtry":
+        throws = sum(1 for _, k, tk in run.events if k == "u.throw")
+        res.counters = {"deliveries_checked": delivered, "loops": 1, "consecutive_step_writes": consecutive,
+                        "deliveries_after_captured_error": throws}
+        res.nontrivial = delivered >= 3 and throws >= 1
+        return res
     flat = M.flatten(case)
     mr = M.simulate(flat)
     mism = compare_all(case, run, mr)
